@@ -20,12 +20,16 @@ P = {
          "Per scan: successful taint writes ≤ max(0, |untainted| − min_nodes), only on members of the untainted list, none when below the minimum.", "§4 C03"),
  "C04": ("proof", "linear-fact entailment through the inlined clamp helper at the single resize site",
          "At the only IncreaseSize call: d ≥ 1, TargetSize + d ≤ MaxSize and ≤ max_nodes on every path; all actions are behind the node-count bounds guard.", "§4 C04"),
+ "C05": ("other", "rational-function normal form (exact multivariate ℚ arithmetic) of the float expressions vs the documented closed forms + Ceil/Max skeleton + constant agreement + provenance",
+         "Structural necessary condition: the real-valued delta and percent functions are the documented ones, rounded up, over both resources and the untainted count, with a consistent from-zero sentinel. Floating-point rounding (the '+1') is not decided.", "§4 C05"),
  "C06": ("other", "guarded-value table of the delta φ checked as propositional equivalences (modulo edge strictness) + dispatch guards + reachability of action classes per arm",
          "The band → delta → action decision table is the documented one on all paths; not the floating-point value of u at a threshold.", "§4 C06"),
  "C07": ("other", "dominance / path-condition rules in ScaleUp + linear remainder + loop recogniser + comparator cross-check + typestate (MUT/SYNC/READ) over the provider cache with call-graph summaries",
          "Untaint precedes and gates the cloud request, which is exactly N − untainted ≥ 1; newest-first over all tainted nodes; no stale cached desired capacity is read for a decision within one scan.", "§4 C07"),
  "C08": ("other", "comparator normal form + collect-loop / sort-dominates-loop / bounded-accumulator recognisers",
          "The taint loop visits a complete oldest-first sorted copy of the untainted list in order and skips a node only when its write failed (modulo sort.Sort).", "§4 C08"),
+ "C13": ("other", "unit (dimension) analysis of every store into Resource fields and constructor arguments + dominance-ordered composition phases + commutative-fold recogniser + rational-function normal form of the percent formula",
+         "Units, per-pod composition order, commutative totals over full range loops and the percent formula are the documented ones; Quantity arithmetic and float rounding are not decided.", "§4 C13"),
  "C14": ("other", "return-site path conditions of each filter compared with the documented predicate (truth-table equivalence / atom classification) + existential-search and full-traversal loop recognisers",
          "Each filter computes the documented predicate for all pod/node shapes at once (not a small-scope enumeration); listers apply exactly the filter.", "§4 C14"),
  "C15": ("other", "value provenance (fresh Get → Update), store census on the fetched object, struct-literal field terms, search-loop exits vs Update reachability, slice-removal idiom recogniser, writer/reader agreement",
